@@ -24,12 +24,13 @@ JOBS_PER_WORKER = 1
 CASE_TIMEOUT_S = 200
 RULE = ("Hypothesis-generated socket sessions on TCP loopback and UNIX sockets (stock, eager, uvloop): message-size "
         "sequences from 1 byte to several MiB, max_bytes 1..1 MiB, full duplex, late/stalled readers with small kernel "
-        "buffers, send_eof/aclose at generated positions, operations after local close, concurrent use of one direction; "
+        "buffers (optionally after a history of several hundred KiB read in pieces of 64..1000 bytes), send_eof/aclose at generated positions, operations after local close, concurrent use of one direction; "
         "both ends in both roles; non-trivial = more bytes in one direction than the kernel accepts with an idle reader, "
         "or a chunk larger than max_bytes, or duplex traffic; distinct = distinct canonical JSON")
 ASSUMPTIONS = [
     "back-pressure is judged differentially against the kernel: K = bytes two identically configured raw non-blocking "
-    "sockets accept with an idle reader; sends completed before the peer's first receive must stay <= K + one message + 1 MiB",
+    "sockets accept with an idle reader; sends completed before the peer's first receive must stay <= K + one message + 1 MiB "
+    "(3 K + 4 MiB after a read history, which lets the kernel grow its windows)",
     "the only wall-clock element is the decision when a stalled writer is considered stuck (0.25 s without progress) and a "
     "30 s watchdog; a watchdog hit is re-run and only a hang on every run is a violation",
     "asyncio backend; IPv4 loopback only",
